@@ -17,6 +17,11 @@ fn tier_of(s: &str) -> Tier {
 }
 
 fn main() {
+    // DataError captures a backtrace when these are on (slow; no oracle looks at it); set before any thread starts
+    unsafe {
+        std::env::set_var("RUST_BACKTRACE", "0");
+        std::env::set_var("RUST_LIB_BACKTRACE", "0");
+    }
     let args: Vec<String> = std::env::args().collect();
     if args.len() < 2 {
         usage();
